@@ -7,6 +7,7 @@ import (
 
 	"github.com/mycoria/mycoria/m"
 	"github.com/mycoria/mycoria/mgr"
+	"github.com/mycoria/mycoria/state"
 )
 
 // VerifSetupLink runs the real link setup (the exact code tcpPeerWith and the
@@ -36,4 +37,14 @@ func (p *Peering) VerifSetupLink(conn net.Conn, peeringURL *m.PeeringURL, outgoi
 func (p *Peering) VerifSetupLinkAsListener(conn net.Conn, peeringURL *m.PeeringURL) {
 	link := newLinkBase(conn, peeringURL, false, p)
 	_ = p.mgr.Do("verif setup link", link.setupWorker)
+}
+
+// VerifLinkEncryption returns the link-layer encryption session of a link that
+// was set up by this package (nil for other Link implementations).
+// Verification hook: only compiled with the "verif" build tag.
+func VerifLinkEncryption(l Link) *state.EncryptionSession {
+	if lb, ok := l.(*LinkBase); ok {
+		return lb.encSession
+	}
+	return nil
 }
